@@ -116,6 +116,28 @@ def diff_path(a, b, path=()):
     return None
 
 
+def all_diffs(a, b, path=(), out=None, limit=40):
+    """every place where two trees differ (a guard that differs anywhere inside is reported once, at the guard)"""
+    out = [] if out is None else out
+    if len(out) >= limit:
+        return out
+    if a[0] != b[0]:
+        out.append((path, a[0][:200], b[0][:200]))
+        return out
+    if a[0] == "guard" and a != b:
+        out.append((path + ("guard",), canon_tree(a)[:200], canon_tree(b)[:200]))
+        return out
+    for i, (x, y) in enumerate(zip(a[1], b[1])):
+        all_diffs(x, y, path + (a[0][:30] + "#%d" % i,), out, limit)
+    if len(a[1]) != len(b[1]):
+        out.append((path, "%d children" % len(a[1]), "%d children" % len(b[1])))
+    return out
+
+
+def canon_tree(t):
+    return t[0] + ("(" + ",".join(canon_tree(k) for k in t[1]) + ")" if t[1] else "")
+
+
 # ------------------------------------------------------------------ behaviour under stub logic
 def names(machine):
     acts, guards, svcs, events = set(), set(), set(), set()
